@@ -6,7 +6,7 @@ the evidence file and print the verdict lines.
 
 exit 0 = held (or only known findings); 1 = violation; 2 = inconclusive.
 stdlib only."""
-import argparse, glob, hashlib, json, os, re, shutil, signal, subprocess, sys, time
+import argparse, glob, hashlib, json, os, re, shutil, signal, subprocess, sys, tempfile, time
 from concurrent.futures import ThreadPoolExecutor
 
 VERIF = os.path.dirname(os.path.dirname(os.path.abspath(__file__)))
@@ -283,8 +283,10 @@ def run_single(pid, report_as, a):
         env["GORACE"] = "halt_on_error=0 log_path=%s/race history_size=3" % bdir
         env["VERIF_BIN"] = BIN_DIR
         env["VERIF_DIR"] = VERIF
-        env["TMPDIR"] = os.path.join(bdir, "tmp")
-        os.makedirs(env["TMPDIR"], exist_ok=True)
+        # scratch space of the child (template repositories, core working dirs, gate files): created per
+        # batch, removed afterwards; kept out of the output tree because the repo manager of the code
+        # under test mis-parses local repository paths that contain dots (e.g. a snapshot under ~/.vp)
+        env["TMPDIR"] = tempfile.mkdtemp(prefix="verif-%s-b%03d-" % (pid, b), dir="/tmp")
         for k, v in tcfg.get("env", {}).items():
             env[k] = str(v)
         cmd = ["timeout", "-s", "QUIT", "-k", "20", str(timeout_s), os.path.join(BIN_DIR, binname), pid,
